@@ -60,7 +60,7 @@ def drawGo (m : Multi) (extra : Option (List Line)) (hasText : Bool) (reap : Lis
   let m := reap.foldl Multi.removeIdx m
   let kept := if m.target.fx.fkept then min m.target.llc adjust else adjust
   let m := if !hasText then { m with z := m.z + kept, target := { m.target with llc := m.target.llc - adjust } } else m
-  ({ m with stale := false }, r.2.1, r.2.2)
+  ({ m with stale := false, blankPainted := if m.target.fx.fblank then m.blankOnTop else m.blankPainted }, r.2.1, r.2.2)
 
 def hasTextOf (m : Multi) (extra : Option (List Line)) : Bool := extra.isSome || decide (visualLineCount m.target.W m.orphan > 0)
 def reapOf (m : Multi) (extra : Option (List Line)) : List Nat :=
